@@ -136,7 +136,8 @@ VALUE_CONFIGS = {
     },
     "thorough": {
         "N": (2, 2, 2, 2, 1, "vals", False, 1),
-        "M": (4, 2, 2, 2, 1, "core", False),
+        "M": (4, 1, 1, 2, 1, "core", False),
+        "D": (3, 2, 2, 2, 1, "core", False),      # the core nested two levels deep
     },
     "selftest": {
         "N": (2, 1, 1, 2, 1, "vals", False, 1),
@@ -603,7 +604,7 @@ def export_cases(tier: str, w: Path, with_props: bool = True, sim: bool = False,
             ex.shutdown(wait=True)
     if lazy_props:
         # the small exports first: their replay overlaps with the TLC runs that are still going on
-        first = ("M", "N", "S", "I", "V", "A", "R")
+        first = ("M", "N", "S", "D", "I", "V", "A", "R")
         order = [n for n in first if n in futs] + [n for n in futs if n not in first]
         return ((n, one(n)) for n in order), props
     try:
